@@ -99,7 +99,7 @@ def gen_c18_variants():
 
 
 # types whose parser loops over a BTreeMap / symbolic-length bitmap: CBMC does not converge, engine M decides them
-K_SKIP = ("NSEC", "SVCB", "HTTPS", "TXT")
+K_SKIP = ("NSEC", "SVCB", "HTTPS", "TXT", "OPT")
 
 # ---------------------------------------------------------------- C01: typed parsers never panic
 def gen_c01(tier):
